@@ -153,7 +153,7 @@ def run(ctx):
 
     # ---------------------------------------------------------------- R6
     r = ctx.rule("C17-R6", "OWNER", "class-level and module-level mutable containers are never mutated, except as a "
-                 "memo (R4) or a memo slot (R1)", reference=9)
+                 "memo (R4) or a memo slot (R1)", reference=17)
     global_containers_rule(ctx, r)
     class_level_through_self(ctx, r)
     shared_objects_rule(ctx, "C17-R7", lambda modname: True, reference=56)
